@@ -12,6 +12,10 @@ inductive Ev
   | fapply (srv life idx term payload : Nat)
   | frestore (srv life : Nat) (data : List Nat)
   | notify (srv life : Nat) (v : Bool) (t : Nat)
+  | sample (srv life t term role commit last own ncfg ncfgOwn start : Nat) (isLeader : Bool) (lo : Nat)
+  | isol (srv t : Nat)
+  | unisol (srv t : Nat)
+  | healAll (t : Nat)
   | calm (t : Nat)
   | calmEnd (t : Nat)
   | isolate (srv life t lease : Nat)
@@ -323,5 +327,73 @@ def finalStatesEqual (h : List Ev) : Option String :=
   | s0 :: rest => match rest.find? (fun s => s.2.2 ≠ s0.2.2) with
     | some s => some s!"final-states-of-{s0.1}-and-{s.1}-differ"
     | none => none
+
+/-! ## C07 / C01 — membership changes are serialised behind commitment -/
+
+/-- a leader never holds two uncommitted configuration entries, and holds an uncommitted
+    configuration entry of its own term only once an entry of its own term is committed -/
+def configGated (h : List Ev) : Option String :=
+  h.findSome? (fun e => match e with
+    | .sample srv _ _ term 2 commit _ own ncfg ncfgOwn _ _ _ =>
+        -- (a restarted server does not know what is committed: only configurations of the leader's
+        -- own term are certainly its own doing, and once its no-op is committed they are all there is)
+        if ncfgOwn > 1 || (ncfgOwn ≥ 1 && commit ≥ own && ncfg > ncfgOwn) then some s!"leader-{srv}-of-term-{term}-holds-{ncfg}-uncommitted-configurations"
+        else if ncfgOwn ≥ 1 && (own == 0 || commit < own) then some s!"leader-{srv}-of-term-{term}-appended-a-configuration-before-committing-an-entry-of-its-term"
+        else none
+    | _ => none)
+
+/-! ## C05 / C03 — the current-term rule -/
+
+def samplesOf (h : List Ev) (srv life : Nat) : List (Nat × Nat × Nat × Nat × Nat) :=   -- (t, term, role, commit, own)
+  h.filterMap (fun e => match e with
+    | .sample s l t term role commit _ own _ _ _ _ _ => if s == srv && l == life then some (t, term, role, commit, own) else none
+    | _ => none)
+
+/-- while a server leads term T its commit index never advances onto an index below the first entry
+    of term T in its log (nothing is reported committed before an own-term entry is) -/
+def currentTermRule (h : List Ev) : Option String :=
+  let ls := (h.filterMap (fun e => match e with | .sample s l _ _ _ _ _ _ _ _ _ _ _ => some (s, l) | _ => none)).eraseDups
+  ls.findSome? (fun sl =>
+    let rec walk : List (Nat × Nat × Nat × Nat × Nat) → Option String
+      | a :: b :: rest =>
+          if a.2.1 == b.2.1 && a.2.2.1 == 2 && b.2.2.1 == 2 && b.2.2.2.1 > a.2.2.2.1 && b.2.2.2.2 > 0 && b.2.2.2.1 < b.2.2.2.2
+          then some s!"leader-{sl.1}-of-term-{b.2.1}-advanced-its-commit-index-to-{b.2.2.2.1}-before-its-own-entry-{b.2.2.2.2}"
+          else walk (b :: rest)
+      | _ => none
+    walk (samplesOf h sl.1 sl.2))
+
+/-- correspondence (not a property clause by itself): the leader's commitment tracker starts at the
+    index of its first own-term entry, whenever that entry is still in its log -/
+def leaderStartIndex (h : List Ev) : Option String :=
+  h.findSome? (fun e => match e with
+    | .sample srv _ _ term 2 _ _ own _ _ start true lo =>
+        if own > 0 && lo > 0 && lo < own && start != own then some s!"leader-{srv}-term-{term}-start-index-{start}-first-own-entry-{own}" else none
+    | _ => none)
+
+/-! ## C14 — isolation does not inflate terms -/
+
+/-- while a server is cut off from everybody its term moves by at most one (an election that was
+    already under way, or the one a TimeoutNow request triggers) -/
+def isolatedTermConstant (h : List Ev) : Option String :=
+  let idxd := h.zipIdx
+  idxd.findSome? (fun (e, i) => match e with
+    | .isol srv t1 =>
+        -- the window ends at the next un-isolation of any server or global heal
+        let after := (idxd.filter (fun (_, j) => j > i)).map (·.1)
+        let t2 := (after.findSome? (fun x => match x with
+          | .unisol _ t => some t      -- un-isolating any server reconnects it to this one
+          | .healAll t => some t
+          | .quiet t => some t
+          | _ => none)).getD 1000000000
+        let ss := after.filterMap (fun x => match x with
+          | .sample s l t term _ _ _ _ _ _ _ _ _ => if s == srv && t > t1 + 30 && t < t2 then some (l, term) else none
+          | _ => none)
+        match ss with
+        | [] => none
+        | (l0, tm0) :: rest =>
+          let same := rest.filter (fun x => x.1 == l0)
+          let mx := same.foldl (fun m x => max m x.2) tm0
+          if mx > tm0 + 1 then some s!"isolated-server-{srv}-raised-its-term-from-{tm0}-to-{mx}" else none
+    | _ => none)
 
 end CL
